@@ -63,6 +63,7 @@ structure NodeSpec where
   min : Nat
   group : Nat
   cap : Str
+  opq : Bool
 
 def pNode : P NodeSpec := do
   let path ← pStr
@@ -77,8 +78,12 @@ def pNode : P NodeSpec := do
   let maj ← pNat
   let min ← pNat
   let group ← pNat
-  let cap ← pStr
-  pure { path, kind, perm, uid, gid, mtime, data, target, maj, min, group, cap }
+  let capT ← tok
+  let (capHex, opq) := match capT.splitOn "~" with
+    | [c, "o"] => (c, true)
+    | _ => (capT, false)
+  let cap ← (match strOfHex capHex with | some c => pure c | none => failure : P Str)
+  pure { path, kind, perm, uid, gid, mtime, data, target, maj, min, group, cap, opq }
 
 def pTyp : P Typ := do
   let t ← tok
@@ -143,7 +148,8 @@ def buildFS (nodes : List NodeSpec) : FS :=
     let fs := ensureDirs fs p.dropLast
     let ino : Inode := { kind := nd.kind, perm := nd.perm, uid := nd.uid, gid := nd.gid, mtime := nd.mtime,
                          data := nd.data, target := nd.target, rdev := (nd.maj, nd.min),
-                         xattrs := if nd.cap = [] then [] else [(capKey, nd.cap)] }
+                         xattrs := (if nd.cap = [] then [] else [(capKey, nd.cap)]) ++
+                                   (if nd.opq then [(opaqueKey, [121])] else []) }
     match fs.lookup p with
     | some i => (fs.setInode i ino, groups)          -- listed after being auto-created
     | none =>
@@ -183,7 +189,8 @@ def renderFS (fs : FS) (top : Path) : String :=
           | some (_, g) => (g, groups, nextG)
           | none => (nextG, (e.2, nextG) :: groups, nextG + 1)
       let mt := match n.mtime with | some t => toString t | none => "*"
-      let cap := match n.xattrs.find? (fun x => x.1 = capKey) with | some x => showStr x.2 | none => "-"
+      let cap := (match n.xattrs.find? (fun x => x.1 = capKey) with | some x => showStr x.2 | none => "-") ++
+        (match n.xattrs.find? (fun x => x.1 = opaqueKey) with | some x => if x.2 = [121] then "~o" else "" | none => "")
       let line := String.intercalate " " [showStr e.1, kindChar n.kind, toString n.perm, toString n.uid,
         toString n.gid, mt, (if n.kind == .reg then showStr n.data else "-"),
         (if n.kind == .sym then showStr n.target else "-"),
